@@ -40,7 +40,7 @@ func Check() *core.Check {
 		ID:    "C02",
 		Level: "exploration",
 		Rule: "case = one program from the refjs generator (tiny name pool, statements <= 40, depth <= 5; sloppy or strict) instantiated as global code, function body, direct-eval code and indirect-eval code; " +
-			"layer 1: 3 variants per program, each 1 or 2 rewrites from the catalogue R1..R13, event log + completion value + thrown value of goja must be equal for original and variant in all 4 placements; " +
+			"layer 1: 3 variants per program, each 1 or 2 rewrites from the catalogue R1..R14, event log + completion value + thrown value of goja must be equal for original and variant in all 4 placements; " +
 			"layer 2: goja must agree with the definitional interpreter refjs on the original in all 4 placements; " +
 			"the first cases of the list are the binding matrix (declaration kind x placement-forcing content x access operation x mode x owner, each instantiated in 8 access contexts that must log the same); " +
 			"non-trivial = a variant's instruction multiset (VerifProgramDump) differs from the original's and the program logged >= 3 events; distinct = distinct program texts",
@@ -68,7 +68,7 @@ func Check() *core.Check {
 				p.Evidence["fraction_interpretations_in_domain"] = float64(c["l2_compared"]) / float64(n)
 			}
 			p.Evidence["placements"] = []string{"global", "function", "direct-eval", "indirect-eval"}
-			p.Evidence["rewrite_catalogue"] = "R1 const<->var/(0,c), R2 capture by uncalled closure, R3 eval(\"\"), R4 with({}), R5 arguments, R6 expression<->statement, R7 unreachable code / constant-condition wrappers, R8 block/label/IIFE, R9 eval(toString), R10 let<->var, R11 for<->while, R12 (a)<->([a]), R13 closure<->eval(closure text)"
+			p.Evidence["rewrite_catalogue"] = "R1 const<->var/(0,c), R2 capture by uncalled closure, R3 eval(\"\"), R4 with({}), R5 arguments, R6 expression<->statement, R7 unreachable code / constant-condition wrappers, R8 block/label/IIFE, R9 eval(toString), R10 let<->var, R11 for<->while, R12 (a)<->([a]), R13 closure<->eval(closure text), R14 end of loop body<->continue"
 		},
 	}
 }
@@ -146,7 +146,7 @@ func compareObs(orig, v *Obs) cmp {
 
 // ---- variants
 
-var rewriteWeights = []int{0, 10, 9, 9, 7, 7, 8, 12, 9, 8, 7, 7, 5, 9} // index = RewriteKind
+var rewriteWeights = []int{0, 10, 9, 9, 7, 7, 8, 12, 9, 8, 7, 7, 5, 9, 6} // index = RewriteKind
 
 func pickKinds(r *core.Rng) []refjs.RewriteKind {
 	n := 1
